@@ -21,9 +21,9 @@ PLAN = dict(
     ],
     runs=[
         dict(name="exh", run="^TestStringsExhaustive$", shards=(1, 16), timeout=(300, 900)),
-        dict(name="value", run="^(TestPropValueRoundTrip|TestValueEdgeCases|TestCorpus)$", checks=(4000, 100000), shards=(1, 4)),
-        dict(name="invalid", run="^(TestPropInvalidValues|TestInvalidEdgeCases)$", checks=(4000, 100000), shards=(1, 2)),
-        dict(name="mutated", run="^TestPropStringsMutated$", checks=(30000, 400000), shards=(1, 8)),
+        dict(name="value", run="^(TestPropValueRoundTrip|TestValueEdgeCases|TestCorpus)$", checks=(20000, 300000), shards=(1, 4)),
+        dict(name="invalid", run="^(TestPropInvalidValues|TestInvalidEdgeCases)$", checks=(15000, 200000), shards=(1, 2)),
+        dict(name="mutated", run="^TestPropStringsMutated$", checks=(120000, 1000000), shards=(1, 8)),
     ],
     technique=("rapid-generated values and mutated header strings + exhaustive enumeration of all strings up to length 5 (quick) / 6 (thorough) over a "
                "16-character grammar alphabet, differential against an independent three-valued draft-09 reference parser (refsh); metamorphic "
